@@ -25,44 +25,39 @@ _c("notify_listeners", trace="notify", params={})
 _c("control_change",
    params={"self": "Sequencer", "channel": "int", "control": "int", "value": "int"}, returns="bool",
    cases=[dict(when="control < 0 or control > 128 or value < 0 or value > 128", returns="bool",
-               ensures=[("refused", "result == False"), ("and-nothing-emitted", "trace_events() == []")]),
+               ensures=[("refused", "result == False")], emits="[]"),
           dict(when=None, returns="bool",
-               ensures=[("accepted", "result == True"),
-                        ("one-cc-event-then-one-notification",
-                         "trace_events() == [('cc_event', channel, control, value), "
-                         "('notify', 2, {'channel': channel, 'control': control, 'value': value})]")])],
+               ensures=[("accepted", "result == True")],
+               emits="[('cc_event', channel, control, value), "
+                     "('notify', 2, {'channel': channel, 'control': control, 'value': value})]")],
    modifies=[], battery="seq_cc")
 
 _c("set_instrument",
    params={"self": "Sequencer", "channel": "int", "instr": "int", "bank": "int"}, returns="None",
-   ensures=[("one-instrument-event-then-one-notification",
-             "trace_events() == [('instr_event', channel, instr, bank), "
-             "('notify', 3, {'channel': channel, 'instr': instr, 'bank': bank})]")],
+   emits="[('instr_event', channel, instr, bank), ('notify', 3, {'channel': channel, 'instr': instr, 'bank': bank})]",
    modifies=[], battery="seq_instr")
 
 _c("play_Note",
    params={"self": "Sequencer", "note": "Note", "channel": "int", "velocity": "int"},
    requires="is_name(note.name)", returns="bool",
-   ensures=[("returns-true", "result == True"),
-            ("one-play-event-pitch-plus-12-own-channel-and-velocity-then-int-and-note-notifications",
-             "trace_events() == [('play_event', pitch(note) + 12, note.channel, note.velocity), "
-             "('notify', 0, {'channel': note.channel, 'note': pitch(note) + 12, 'velocity': note.velocity}), "
-             "('notify', 5, {'channel': note.channel, 'note': note, 'velocity': note.velocity})]")],
+   ensures=[("returns-true", "result == True")],
+   emits="[('play_event', pitch(note) + 12, note.channel, note.velocity), "
+         "('notify', 0, {'channel': note.channel, 'note': pitch(note) + 12, 'velocity': note.velocity}), "
+         "('notify', 5, {'channel': note.channel, 'note': note, 'velocity': note.velocity})]",
    modifies=[], battery="seq_note")
 _c("stop_Note",
    params={"self": "Sequencer", "note": "Note", "channel": "int"},
    requires="is_name(note.name)", returns="bool",
-   ensures=[("returns-true", "result == True"),
-            ("one-stop-event-same-pitch-and-channel-then-int-and-note-notifications",
-             "trace_events() == [('stop_event', pitch(note) + 12, note.channel), "
-             "('notify', 1, {'channel': note.channel, 'note': pitch(note) + 12}), "
-             "('notify', 6, {'channel': note.channel, 'note': note})]")],
+   ensures=[("returns-true", "result == True")],
+   emits="[('stop_event', pitch(note) + 12, note.channel), "
+         "('notify', 1, {'channel': note.channel, 'note': pitch(note) + 12}), "
+         "('notify', 6, {'channel': note.channel, 'note': note})]",
    modifies=[], battery="seq_note_stop")
 
 for _nm, _cc in (("modulation", 1), ("main_volume", 7), ("pan", 10)):
     _c(_nm, params={"self": "Sequencer", "channel": "int", "value": "int"}, returns="bool",
        cases=[dict(when="value < 0 or value > 128", returns="bool",
-                   ensures=[("refused", "result == False"), ("and-nothing-emitted", "trace_events() == []")]),
+                   ensures=[("refused", "result == False")], emits="[]"),
               dict(when=None, returns="bool",
                    ensures=[("accepted", "result == True"),
                             ("one-cc-event-then-one-notification",
@@ -90,8 +85,36 @@ CONTRACTS[O + "notify"] = dict(
             "params": "dict[%s]" % ",".join("%s:any" % k for k in _ALLKEYS)},
     returns="None",
     cases=[dict(when="msg_type == %d" % n, returns="None",
-                ensures=[("exactly-its-callback-with-the-parameters-sent",
-                          "trace_events() == [('observer.%s', self, %s)]" % (cb, ", ".join("params[%r]" % k for k in keys)))])
+                emits="[('observer.%s', self, %s)]" % (cb, ", ".join("params[%r]" % k for k in keys)))
            for n, cb, keys in _CB] +
-          [dict(when=None, returns="None", ensures=[("unknown-message-ignored", "trace_events() == []")])],
+          [dict(when=None, returns="None", emits="[]")],
     modifies=[], properties=["C18"], battery="observer_msgs")
+
+# ---------------------------------------------------------------- containers of 0..3 notes (and None = a rest)
+CLASSES["NoteContainer"] = {"class": "mingus.containers.note_container.NoteContainer", "fields": {"notes": "[Note]"}}
+_NCV = "all([is_name(n.name) for n in nc.notes])"
+_PLAY3 = ("[('play_event', pitch(n) + 12, n.channel, n.velocity), "
+          "('notify', 0, {'channel': n.channel, 'note': pitch(n) + 12, 'velocity': n.velocity}), "
+          "('notify', 5, {'channel': n.channel, 'note': n, 'velocity': n.velocity})]")
+_STOP3 = ("[('stop_event', pitch(n) + 12, n.channel), ('notify', 1, {'channel': n.channel, 'note': pitch(n) + 12}), "
+          "('notify', 6, {'channel': n.channel, 'note': n})]")
+_SIZES = [{"field_types": {"nc.notes": "[" + ",".join(["Note"] * k) + "]"}} for k in range(0, 4)]
+_c("play_NoteContainer",
+   params={"self": "Sequencer", "nc": "NoteContainer", "channel": "int", "velocity": "int"}, requires=_NCV,
+   returns="bool", ensures=[("returns-true", "result == True")],
+   emits="[('notify', 7, {'notes': nc, 'channel': channel, 'velocity': velocity})] + sum([%s for n in nc.notes], [])" % _PLAY3,
+   modifies=[], split=_SIZES, split_is_domain=True,
+   variants=[dict(name="rest", params={"self": "Sequencer", "nc": "None", "channel": "int", "velocity": "int"},
+                  requires=None, split=None, split_is_domain=None,
+                  emits="[('notify', 7, {'notes': None, 'channel': channel, 'velocity': velocity})]")],
+   notes="every note in order: exactly one play event with its own channel and velocity; containers of 0..3 notes",
+   battery="seq_nc")
+_c("stop_NoteContainer",
+   params={"self": "Sequencer", "nc": "NoteContainer", "channel": "int"}, requires=_NCV,
+   returns="bool", ensures=[("returns-true", "result == True")],
+   emits="[('notify', 8, {'notes': nc, 'channel': channel})] + sum([%s for n in nc.notes], [])" % _STOP3,
+   modifies=[], split=_SIZES, split_is_domain=True,
+   variants=[dict(name="rest", params={"self": "Sequencer", "nc": "None", "channel": "int"},
+                  requires=None, split=None, split_is_domain=None,
+                  emits="[('notify', 8, {'notes': None, 'channel': channel})]")],
+   battery="seq_nc_stop")
